@@ -1,6 +1,17 @@
 // ---- trusted shell (mig): std::collections::HashMap as used by migration 001 (included INSIDE the module that holds the
-// extracted function so that the name shadows nothing else). Only what the function calls; the contents are not
-// specified (the rebuild loop of migration 001 is outside the verified contract, see U-mig-skip). ----
+// extracted function, so that the name shadows nothing else). The shell type is generic (the code names
+// `HashMap<([u8; 32], [u8; 32]), (u64, Vec<u8>)>`), its operations exist for that instantiation only and are specified on the
+// abstract view `Map<LatestKey, LatestVal>` (a (namespace, author) pair of byte arrays is its pair of byte strings; a
+// (timestamp, key bytes) value is `LatestVal`). Operations (A-std HashMap):
+//   new: empty;  len: number of keys;  into_iter: every (key, value) pair exactly once, in unspecified order;
+//   entry(k).and_modify(f).or_insert_with(g): if k is present its value is updated in place by f, else g() is inserted;
+//   nothing else changes. The map content after the chain is the prophecy `Entry::fin` (the `&mut` of `or_insert_with` is
+//   resolved by Verus when it is dropped). ----
+pub type HeadKey = ([u8; 32], [u8; 32]);
+pub type HeadVal = (u64, Vec<u8>);
+pub open spec fn head_key_view(k: HeadKey) -> LatestKey { LatestKey { ns: k.0@, author: k.1@ } }
+pub open spec fn head_val_view(v: HeadVal) -> LatestVal { LatestVal { ts: v.0, key: v.1@ } }
+
 #[verifier::external_body]
 #[verifier::reject_recursive_types(K)]
 #[verifier::reject_recursive_types(V)]
@@ -9,20 +20,54 @@ pub struct HashMap<K, V> { _k: core::marker::PhantomData<(K, V)> }
 #[verifier::reject_recursive_types(K)]
 #[verifier::reject_recursive_types(V)]
 pub struct Entry<'a, K, V> { _k: core::marker::PhantomData<&'a mut (K, V)> }
-impl<K, V> HashMap<K, V> {
+
+impl HashMap<HeadKey, HeadVal> {
+    pub uninterp spec fn view(&self) -> Map<LatestKey, LatestVal>;
+
     #[verifier::external_body]
-    pub fn new() -> Self { unimplemented!() }
+    pub fn new() -> (r: Self) ensures r@ == Map::<LatestKey, LatestVal>::empty() { unimplemented!() }
+
     #[verifier::external_body]
-    pub fn entry(&mut self, k: K) -> Entry<'_, K, V> { unimplemented!() }
+    pub fn entry(&mut self, k: HeadKey) -> (e: Entry<'_, HeadKey, HeadVal>)
+        ensures
+            e.key() == head_key_view(k),
+            e.before() == old(self)@,
+            e.slot() == (if old(self)@.contains_key(head_key_view(k)) { Some(old(self)@[head_key_view(k)]) } else { None::<LatestVal> }),
+            final(self)@ == e.fin(),
+    { unimplemented!() }
+
     #[verifier::external_body]
-    pub fn len(&self) -> usize { unimplemented!() }
+    pub fn len(&self) -> (r: usize) ensures r == self@.dom().len() { unimplemented!() }
 }
-impl<'a, K, V> Entry<'a, K, V> {
+
+impl<'a> Entry<'a, HeadKey, HeadVal> {
+    pub uninterp spec fn key(&self) -> LatestKey;
+    /// the map when `entry` was called
+    pub uninterp spec fn before(&self) -> Map<LatestKey, LatestVal>;
+    /// current value of the slot (None: vacant)
+    pub uninterp spec fn slot(&self) -> Option<LatestVal>;
+    /// prophecy: the map when the entry chain is finished
+    pub uninterp spec fn fin(&self) -> Map<LatestKey, LatestVal>;
+
     #[verifier::external_body]
-    pub fn and_modify<F: FnOnce(&mut V)>(self, f: F) -> Self { unimplemented!() }
+    pub fn and_modify<F: FnOnce(&mut HeadVal)>(self, f: F) -> (r: Self)
+        requires forall|m: &mut HeadVal| f.requires((m,)),
+        ensures
+            r.key() == self.key(), r.before() == self.before(), r.fin() == self.fin(),
+            self.slot() is None ==> r.slot() is None,
+            self.slot() is Some ==> exists|m: &mut HeadVal| head_val_view(*m) == self.slot()->Some_0 && #[trigger] f.ensures((m,), ()) && r.slot() == Some(head_val_view(*final(m))),
+    { unimplemented!() }
+
     #[verifier::external_body]
-    pub fn or_insert_with<F: FnOnce() -> V>(self, f: F) -> &'a mut V { unimplemented!() }
+    pub fn or_insert_with<F: FnOnce() -> HeadVal>(self, f: F) -> (r: &'a mut HeadVal)
+        requires f.requires(()),
+        ensures
+            self.slot() is Some ==> head_val_view(*r) == self.slot()->Some_0,
+            self.slot() is None ==> f.ensures((), *r),
+            self.fin() == self.before().insert(self.key(), head_val_view(*final(r))),
+    { unimplemented!() }
 }
+
 #[verifier::external_body]
 #[verifier::reject_recursive_types(K)]
 #[verifier::reject_recursive_types(V)]
@@ -42,9 +87,19 @@ impl<K, V> vstd::std_specs::iter::IteratorSpecImpl for HashMapIntoIter<K, V> {
     open spec fn decrease(&self) -> Option<nat> { Some(self.rest().len()) }
     open spec fn peek(&self, i: int) -> Option<(K, V)> { if 0 <= i < self.rest().len() { Some(self.rest()[i]) } else { None } }
 }
-impl<K, V> IntoIterator for HashMap<K, V> {
-    type Item = (K, V);
-    type IntoIter = HashMapIntoIter<K, V>;
+
+/// the pairs of `items` are exactly the entries of `m`, each key once
+pub open spec fn head_items_of(items: Seq<(HeadKey, HeadVal)>, m: Map<LatestKey, LatestVal>) -> bool {
+    &&& (forall|i: int, j: int| 0 <= i < j < items.len() ==> head_key_view((#[trigger] items[i]).0) != head_key_view((#[trigger] items[j]).0))
+    &&& (forall|i: int| 0 <= i < items.len() ==> #[trigger] m.contains_key(head_key_view(items[i].0)) && m[head_key_view(items[i].0)] == head_val_view(items[i].1))
+    &&& (forall|k: LatestKey| m.contains_key(k) ==> exists|i: int| 0 <= i < items.len() && head_key_view((#[trigger] items[i]).0) == k)
+}
+
+impl IntoIterator for HashMap<HeadKey, HeadVal> {
+    type Item = (HeadKey, HeadVal);
+    type IntoIter = HashMapIntoIter<HeadKey, HeadVal>;
     #[verifier::external_body]
-    fn into_iter(self) -> HashMapIntoIter<K, V> { unimplemented!() }
+    fn into_iter(self) -> (r: HashMapIntoIter<HeadKey, HeadVal>)
+        ensures head_items_of(r.rest(), self@)
+    { unimplemented!() }
 }
